@@ -1,10 +1,14 @@
 package main
 
 import (
+	"context"
 	"encoding/json"
 	"fmt"
 	"math"
+	"os"
+	"os/exec"
 	"reflect"
+	"runtime/debug"
 	"sort"
 	"strconv"
 	"strings"
@@ -29,6 +33,11 @@ import (
 //   (e) CYCLIC values (var p any; p = &p / type loop *loop / two-variable cycles / chains leading into a cycle), alone and grafted
 //       into trees, every read under a deadline: oracle only (a cyclic value is not a finite gval term): the call must return - an
 //       error or a value - and not hang or panic
+//   (f) SELF-CONTAINING maps and slices (a map that is its own member, directly / through one intermediate map / through a slice /
+//       through a pointer; a slice that is its own item) under the RECURSIVE record of the family, plus acyclic controls (a
+//       sub-value shared several times, prefix slices of one backing array) that must decode as their tree copies: each in a CHILD
+//       process of the driver (an unbounded recursion overflows the goroutine stack, which is fatal and cannot be recovered):
+//       oracle only: the child must exit normally within the deadline (else any:stack-overflow / any:hang)
 // The value handed to the reader is written for the model by toGval, a reflect walk that shares no code with the reader.
 
 type anyBytes []byte
@@ -549,6 +558,151 @@ func decodeAnyDeadline(tname string, x interface{}, limit time.Duration) (oc out
 	return outcome{Class: "hang"}, nil, true
 }
 
+// ---- (f) self-containing maps / slices: built and read in a child process (VERIF_MODE=canyprobe, VERIF_PROBE=<index>)
+type selfCase struct {
+	name    string
+	tname   string
+	control bool // acyclic: must decode, and exactly as the tree copy
+	mk      func() (x interface{}, tree interface{})
+}
+
+var selfCases = []selfCase{
+	{`m := map[string]any{"v": 1}; m["next"] = m`, "Rec", false, func() (interface{}, interface{}) {
+		m := map[string]interface{}{"v": 1}
+		m["next"] = m
+		return m, nil
+	}},
+	{`m := map[string]any{"v": 1}; m["next"] = map[string]any{"v": 2, "next": m}`, "Rec", false, func() (interface{}, interface{}) {
+		m := map[string]interface{}{"v": 1}
+		m["next"] = map[string]interface{}{"v": 2, "next": m}
+		return m, nil
+	}},
+	{`m := map[string]any{"v": 1}; m["kids"] = []any{m}`, "Rec", false, func() (interface{}, interface{}) {
+		m := map[string]interface{}{"v": 1}
+		m["kids"] = []interface{}{m}
+		return m, nil
+	}},
+	{`m := map[string]any{"v": 1}; m["kids"] = []any{map[string]any{"v": 2}, map[string]any{"v": 3, "kids": []any{m}}}`, "Rec", false, func() (interface{}, interface{}) {
+		m := map[string]interface{}{"v": 1}
+		m["kids"] = []interface{}{map[string]interface{}{"v": 2}, map[string]interface{}{"v": 3, "kids": []interface{}{m}}}
+		return m, nil
+	}},
+	{`m := map[string]any{"v": 1}; m["next"] = &m`, "Rec", false, func() (interface{}, interface{}) {
+		m := map[string]interface{}{"v": 1}
+		m["next"] = &m
+		return m, nil
+	}},
+	{`s := []any{nil}; m := map[string]any{"v": 1, "kids": s}; s[0] = m`, "Rec", false, func() (interface{}, interface{}) {
+		s := []interface{}{nil}
+		m := map[string]interface{}{"v": 1, "kids": s}
+		s[0] = m
+		return m, nil
+	}},
+	{`m := map[string]map[string]any{}; m["next"] = map[string]any{"v": 2, "next": m}  (typed outer map)`, "Rec", false, func() (interface{}, interface{}) {
+		m := map[string]map[string]interface{}{}
+		m["next"] = map[string]interface{}{"v": 2, "next": m}
+		return m, nil
+	}},
+	{`m := map[string]any{"v": 1}; m["next"] = m; map[string]any{"rec": m, "e": "RED"}`, "Big", false, func() (interface{}, interface{}) {
+		m := map[string]interface{}{"v": 1}
+		m["next"] = m
+		return map[string]interface{}{"rec": m, "e": "RED"}, nil
+	}},
+	{`s := []any{nil}; s[0] = s; map[string]any{"aa": s}`, "DEmp", false, func() (interface{}, interface{}) {
+		s := []interface{}{nil}
+		s[0] = s
+		return map[string]interface{}{"aa": s}, nil
+	}},
+	{`s := []any{nil}; s[0] = s; map[string]any{"kids": s, "v": 1}`, "Rec", false, func() (interface{}, interface{}) {
+		s := []interface{}{nil}
+		s[0] = s
+		return map[string]interface{}{"kids": s, "v": 1}, nil
+	}},
+	// controls: shared, not cyclic
+	{`in := map[string]any{"v": 3}; map[string]any{"v": 1, "next": in, "kids": []any{in, in, map[string]any{"v": 4, "next": in}}}  (one sub-value shared four times)`, "Rec", true, func() (interface{}, interface{}) {
+		in := map[string]interface{}{"v": 3}
+		cp := func() interface{} { return map[string]interface{}{"v": 3} }
+		return map[string]interface{}{"v": 1, "next": in, "kids": []interface{}{in, in, map[string]interface{}{"v": 4, "next": in}}},
+			map[string]interface{}{"v": 1, "next": cp(), "kids": []interface{}{cp(), cp(), map[string]interface{}{"v": 4, "next": cp()}}}
+	}},
+	{`b := []any{{"v": 5}, {"v": 6}, {"v": 7}}; map[string]any{"v": 1, "kids": b, "next": map[string]any{"v": 2, "kids": b[:2], "next": map[string]any{"v": 3, "kids": b[:3]}}}  (prefix slices / the same slice again, not nested in itself)`, "Rec", true, func() (interface{}, interface{}) {
+		mk := func() []interface{} {
+			return []interface{}{map[string]interface{}{"v": 5}, map[string]interface{}{"v": 6}, map[string]interface{}{"v": 7}}
+		}
+		b := mk()
+		return map[string]interface{}{"v": 1, "kids": b, "next": map[string]interface{}{"v": 2, "kids": b[:2], "next": map[string]interface{}{"v": 3, "kids": b[:3]}}},
+			map[string]interface{}{"v": 1, "kids": mk(), "next": map[string]interface{}{"v": 2, "kids": mk()[:2], "next": map[string]interface{}{"v": 3, "kids": mk()}}}
+	}},
+	{`in := []any{"a", "b"}; map[string]any{"arr": in, "m": map[string]any{}, "marr": map[string]any{}, "am": []any{}, "ab": in}  (one slice at two fields)`, "Coll", true, func() (interface{}, interface{}) {
+		in := []interface{}{"a", "b"}
+		return map[string]interface{}{"arr": in, "m": map[string]interface{}{}, "marr": map[string]interface{}{}, "am": []interface{}{}, "ab": in},
+			map[string]interface{}{"arr": []interface{}{"a", "b"}, "m": map[string]interface{}{}, "marr": map[string]interface{}{}, "am": []interface{}{}, "ab": []interface{}{"a", "b"}}
+	}},
+}
+
+type probeResult struct {
+	Outcome      outcome `json:"outcome"`
+	ControlEqual bool    `json:"control_equal"`
+	TreeOutcome  outcome `json:"tree_outcome"`
+}
+
+// the child: VERIF_PROBE = index into selfCases
+func runCAnyProbe() {
+	debug.SetMaxStack(48 << 20) // an unbounded recursion ends in seconds, not after a gigabyte of stack
+	k, err := strconv.Atoi(os.Getenv("VERIF_PROBE"))
+	if err != nil || k < 0 || k >= len(selfCases) {
+		fmt.Fprintln(os.Stderr, "bad VERIF_PROBE")
+		os.Exit(2)
+	}
+	c := selfCases[k]
+	x, tree := c.mk()
+	var res probeResult
+	var got *Val
+	res.Outcome, got = decodeAnyValue(c.tname, x)
+	if c.control {
+		var want *Val
+		res.TreeOutcome, want = decodeAnyValue(c.tname, tree)
+		res.ControlEqual = res.Outcome.Class == res.TreeOutcome.Class && valKey(got) == valKey(want)
+	}
+	b, _ := json.Marshal(res)
+	fmt.Println(string(b))
+}
+
+// the parent: run selfCases[k] in a child process of this executable
+func probeChild(k int, limit time.Duration) (res probeResult, status string, tail string) {
+	exe, err := os.Executable()
+	if err != nil {
+		return res, "cannot-start", err.Error()
+	}
+	ctx, cancel := context.WithTimeout(context.Background(), limit)
+	defer cancel()
+	cmd := exec.CommandContext(ctx, exe)
+	cmd.Env = append(os.Environ(), "VERIF_MODE=canyprobe", fmt.Sprintf("VERIF_PROBE=%d", k))
+	var stderr strings.Builder
+	cmd.Stderr = &stderr
+	out, err := cmd.Output()
+	tail = stderr.String()
+	if i := strings.Index(tail, "\n\n"); i > 0 {
+		tail = tail[:i] // the first paragraph of a fatal error ("runtime: goroutine stack exceeds ...", "fatal error: stack overflow")
+	}
+	if len(tail) > 400 {
+		tail = tail[:400]
+	}
+	switch {
+	case ctx.Err() != nil:
+		return res, "timeout", tail
+	case err != nil:
+		if strings.Contains(stderr.String(), "stack overflow") || strings.Contains(stderr.String(), "stack exceeds") {
+			return res, "stack-overflow", tail
+		}
+		return res, "crash", tail
+	}
+	if json.Unmarshal(out, &res) != nil {
+		return res, "crash", "unreadable child output: " + string(out)
+	}
+	return res, "ok", ""
+}
+
 // NewInterfaceReader(x) + the generated UnmarshalRestLi of tname
 func decodeAnyValue(tname string, x interface{}) (oc outcome, v *Val) {
 	var err error
@@ -905,6 +1059,33 @@ func runCAny(cfg *hx.Config) {
 				}
 				watch(x, descAny(y)+" with `"+c.name+"` in place of the nodes at "+strings.Join(at, ", "), "grafted")
 			}
+		}
+	}
+	// ---- (f) self-containing maps / slices, each in a child process
+	for k, c := range selfCases {
+		res, status, tail := probeChild(k, 30*time.Second)
+		rep.Evaluations++
+		rep.Count("source=self-containing(child process)")
+		rep.Count("child=" + status)
+		rep.Distinct("self"+c.name, true)
+		cd := map[string]interface{}{"type": c.tname, "reader": "any", "value": c.name, "child_process": status, "outcome": res.Outcome, "stderr": tail}
+		switch {
+		case status == "stack-overflow":
+			rep.Fail("any:stack-overflow", "the untyped reader recurses without bound into a map / slice that contains itself: the goroutine stack overflows, which is fatal to the process (recover() cannot catch it)", site+":ReadMap/ReadArray", cd, tail)
+		case status == "timeout":
+			rep.Fail("any:hang", "the untyped reader did not return within the deadline on a Go value (it must return an error or a value)", site, cd, tail)
+		case status != "ok":
+			rep.Fail("any:crash", "reading a Go value with the untyped reader killed the process", site, cd, tail)
+		case res.Outcome.Class == "panic":
+			rep.Fail("any:panic", "the untyped reader panicked on a Go value", site, cd, res.Outcome.Text)
+		case c.control && !(res.Outcome.Class == "ok" && res.ControlEqual):
+			cd["tree_outcome"] = res.TreeOutcome
+			rep.Fail("any:shared-subvalue-differs", "a value in which a sub-value is shared (not cyclic) is not decoded as its tree copy", site, cd, res.Outcome.Text)
+		case !c.control && res.Outcome.Class == "ok":
+			rep.Fail("any:self-containing-accepted", "a value that contains itself was decoded without an error", site, cd, nil)
+		}
+		if k < 2 {
+			rep.Sample(cd)
 		}
 	}
 	for k, n := range kinds {
